@@ -770,6 +770,18 @@ func init() {
 					// output files in sub-directories of the files directory
 					cases[len(cases)-1].Tweak = func(s *pgen.Spec) { s.NestFilesPct = 40 }
 				}
+				if i%6 == 5 || i%6 == 1 {
+					// half of the string-typed outputs carry the path of a file the stage
+					// wrote; more string parameters than usual
+					prev := cases[len(cases)-1].Tweak
+					cases[len(cases)-1].Tweak = func(s *pgen.Spec) {
+						if prev != nil {
+							prev(s)
+						}
+						s.PathInStringPct = 50
+					}
+					cfg.PFileTypes = 35
+				}
 				if i%6 == 3 {
 					// the pipestance directory is reached through a symlinked parent
 					// directory, and half of the output files are named by the stage
